@@ -166,9 +166,10 @@ Print Assumptions C06_read_before_reply_handler.
    are spelled out).  It proves nothing about the code by itself.  That the CODE has this product shape -
    no state of the reply path shared between connections - is an assumption tied to the source by one
    syntactic check of the translator: gen_handles_per_connection = true iff GoJT808.Run calls
-   createDefaultHandle() and newConnection() inside the accept loop, every value of createDefaultHandle's
+   createDefaultHandle() and newConnection() inside the accept loop (directly or through one helper), every value of createDefaultHandle's
    map literal is a fresh &model.T{}, and newConnection's literal makes msgChan / reissuePackChan and sets
-   platformSerialNumber (Gen/TablesOk_reply.v tables_handles_per_connection).  It does not look at
+   platformSerialNumber (Gen/TablesOk_conn.v tables_handles_per_connection; when the translator does not recognise the shape of Run it
+   omits the definition and bin/check reports the tie as unavailable).  It does not look at
    custom handler functions (default configuration only) nor at package-level state elsewhere; the
    session registry, the one shared structure, is C11's subject; data races are C18's.  At run time the
    harness plays 8 connections at a time and checks each against its own expectation. *)
